@@ -116,7 +116,7 @@ class NodeConfig:
 
 
 class RecProvisioner:
-    def __init__(self, cfg, node_name, idx):
+    def __init__(self, cfg, node_name):
         self.sim = CUR
         self.h = CUR.cur_group()
         self.node_name = node_name
@@ -248,7 +248,7 @@ def install_patches():
             (metrics, "results_store"): lambda cfg: RecResultsStore(cfg),
             (metrics, "calculate_system_results"): _calculate_system_results,
             (supplier, "create"): lambda cfg, sources, distribution, car, plugins: RecSupplier(cfg),
-            (provisioner, "local"): lambda cfg, car, plugins, ip, port, all_ips, all_names, root, node_name: RecProvisioner(cfg, node_name, CUR.next_prov()),
+            (provisioner, "local"): lambda cfg, car, plugins, ip, port, all_ips, all_names, root, node_name: RecProvisioner(cfg, node_name),
             (provisioner, "cleanup"): cleanup,
             (launcher, "ProcessLauncher"): lambda cfg: RecLauncher(cfg),
             (team, "team_path"): lambda cfg: "/nonexistent/team",
@@ -319,7 +319,6 @@ class Sim:
         self.cur_actor = None
         self.k2h = {}
         self.nk = 0
-        self.prov_idx = 0
         self.registered = False
         self.rc_sent_start = self.rc_sent_stop = False
         self.rc_inbox = []
@@ -347,10 +346,6 @@ class Sim:
             return self.keys.index(key) if key in self.keys else -1
         h = getattr(self.actors.get(self.cur_actor) or self._last_actor, "_c12_group", None)
         return -1 if h is None else h
-
-    def next_prov(self):
-        self.prov_idx += 1
-        return self.prov_idx - 1
 
     def call(self, h, name, *args):
         self.outs.append(["call", h, name] + list(args))
